@@ -430,6 +430,60 @@ def rule_stream_primitives(P, rep):
     rep.check(len(c) == 1 and g.const_of(c[0].ops[2]) == 4, 'R-C09-2', 'sgetble32 reads 4 bytes into a 4-byte buffer', g.file, 'sread length %s' % (g.const_of(c[0].ops[2]) if c else '?'), function='sgetble32', construct='read length')
 
 
+def dest_capacity(P, f, o):
+    """capacity in bytes of the object a pointer operand points into (local array, or array member of a struct), or None"""
+    o = f.strip(o)
+    if o[0] != 'i':
+        return None
+    i = f.insts[o[1]]
+    if i.op == 'alloca':
+        return i.asize
+    if i.op == 'getelementptr':
+        base_ = f.strip(i.ops[0])
+        if i.off == 0 and base_[0] == 'i' and f.insts[base_[1]].op == 'alloca':
+            return f.insts[base_[1]].asize
+        # array member: the type reached by the steps before the final element step
+        cur = i.src
+        last_arr = None
+        for j, st in enumerate(i.steps):
+            if j == 0:
+                continue
+            m = re.match(r'^\[(\d+) x (.*)\]$', cur)
+            if st[0] == 'a' and m:
+                last_arr = (int(m.group(1)), m.group(2), P.const_index(f, i.ops[1 + j]))
+                cur = m.group(2)
+            elif st[0] == 's':
+                ls = P.structs.get(cur.lstrip('%'))
+                if ls is None:
+                    return None
+                cur = ls['fields'][st[3]]['ty']
+                last_arr = None
+            else:
+                return None
+        if last_arr and last_arr[1] == 'i8' and last_arr[2] == 0:
+            return last_arr[0]
+    return None
+
+
+def rule_read_capacity(P, rep):
+    """R-C09-2c: every bounded read primitive is given a bound that fits the destination it is given (program-wide)"""
+    n = 0
+    for f in P.defined():
+        for c in f.calls({'sgetbs', 'sread', 'sgetline', 'sgettok'}):
+            if len(c.ops) < 3:
+                continue
+            bound = f.const_of(c.ops[2])
+            cap = dest_capacity(P, f, c.ops[1])
+            if bound is None or cap is None:
+                continue
+            n += 1
+            rep.check(bound <= cap, 'R-C09-2c', '%s: %s(%s, %d) into a %d-byte object' % (base(f.name), c.callee, f.expr(c.ops[1])[:30], bound, cap), c.loc(),
+                      'bound fits' if bound <= cap else 'the size passed to %s (%d) exceeds the destination (%d bytes): a damaged length overflows the buffer' % (c.callee, bound, cap),
+                      function=base(f.name), construct='%s bound of %s' % (c.callee, f.expr(c.ops[1])[:30]))
+            rep.analysed(f)
+    return n
+
+
 def rule_crc(P, rep, f, dead):
     """R-C09-4: CRC must-pass-through in state_read_content"""
     fa = FlagAnalysis(f, flag_names={'crc_checked'})
@@ -659,6 +713,8 @@ def run(ctx, rep):
                 ok = True
     rep.check(ok, 'R-C09-1c', 'fs_file2block_get aborts when file_pos >= blockmax', g.file, '', function='fs_file2block_get', construct='range abort')
     rule_stream_primitives(P, rep)
+    rep.rule('R-C09-2c', 'every bounded read (sgetbs/sread/...) is given a bound no larger than the destination object', 15)
+    rule_read_capacity(P, rep)
     rule_crc(P, rep, f, dead)
     rule_main_order(ctx, rep)
     # R-C09-5: loading has no write effect
